@@ -328,16 +328,19 @@ def dyn_sizes_cases():
                 ctx = interp.ctx
                 cd = mk_calldata_obj(counter=True)
                 defaults_arr, defaults_bytes = [0, 1, 2], [0, 65]
-                cd.args = NS(array_lengths={"xs": [4, 7]} if given else {}, default_array_lengths=defaults_arr, default_bytes_lengths=defaults_bytes)
+                lengths = {"xs": [4, 7]} if given else {}
+                snapshot = {k: list(v) for k, v in lengths.items()}
+                cd.args = NS(array_lengths=lengths, default_array_lengths=defaults_arr, default_bytes_lengths=defaults_bytes)
                 typ = hcd.DynamicArrayType("xs", hcd.BaseType("", "uint256")) if kind == "array" else hcd.BaseType("xs", kind)
                 sizes, var = interp.call(hcd.Calldata.__dict__["get_dyn_sizes"], [cd, "xs", typ], {})
                 want = [4, 7] if given else (defaults_arr if kind == "array" else defaults_bytes)
                 ctx.oblige("candidates: the configured list for this parameter, else the default list of its kind", z3.BoolVal(list(sizes) == want), info={"got": str(sizes)})
                 ok = len(cd.dyn_params) == 1 and cd.dyn_params[0].name == "xs" and list(cd.dyn_params[0].size_choices) == want and cd.dyn_params[0].size_symbol is var and cd.dyn_params[0].typ is typ
                 ctx.oblige("the parameter is registered once with exactly these candidates and the returned size symbol", z3.BoolVal(ok))
+                ctx.oblige("frame: the configuration is read, never written (the `array_lengths` value belongs to the layer that set it and is shared by every test)", z3.BoolVal(cd.args.array_lengths is lengths and lengths == snapshot and defaults_arr == [0, 1, 2] and defaults_bytes == [0, 65]), info={"array_lengths": str(lengths)})
                 ctx.oblige("the size symbol is an unconstrained 256-bit symbol named after the parameter", z3.BoolVal(z3.is_const(var) and var.size() == 256 and bool(re.fullmatch(r"p_xs_length_[0-9a-f]{7}_0?1", var.decl().name()))), info={"name": var.decl().name()})
 
-            out.append(Case(f"{PROP}/calldata.Calldata.get_dyn_sizes", f"{kind},configured={given}", harness, sources=("halmos.calldata:Calldata.get_dyn_sizes",)))
+            out.append(Case(f"{PROP}/calldata.Calldata.get_dyn_sizes", f"{kind},configured={given}", harness, replay=replay_script("array_lengths_memoised.py", "three tests sharing a parameter name, the later ones annotated with their own default lengths"), sources=("halmos.calldata:Calldata.get_dyn_sizes",)))
     return out
 
 
@@ -688,6 +691,11 @@ def build_cases(tier="quick"):
 
     ref = [Case(f"{PROP}/sevm.SEVM.calldataload", c.case, c.harness, replay=c.replay, sources=c.sources) for c in c02.calldataload_cases()]
     ref += [Case(f"{PROP}/sevm.Path.branch#size-tables-owned", c.case, c.harness, replay=c.replay, sources=c.sources) for c in c02.path_cases() if "Path.branch" in c.unit]
+    from contracts import c15
+    from contracts.common import rewrap
+
+    # the callers of mk_calldata hand the length candidates to the path that runs the message (C15's unit: invariant target calls)
+    ref += rewrap(PROP, c15.target_call_path_cases(), "candidates-reach-the-running-path")
     return generic_calldata_cases() + encode_tuple_cases() + encode_cases() + dyn_sizes_cases() + create_cases() + ref
 
 
